@@ -255,7 +255,8 @@ void iauth_check_request(struct iauth_request *request)
     if (request->holds == 0
         && !BITSET_GET(request->flags, IAUTH_RESPONDED)
         && !BITSET_H_ANDNOT(iauth_flags, request->flags)) {
-        if (request->soft_holds == 0)
+        if (request->soft_holds == 0
+            || BITSET_GET(request->flags, IAUTH_TIMED_OUT))
             iauth_accept(request);
         else if (!BITSET_GET(request->flags, IAUTH_SOFT_DONE)) {
             log_message(iauth_log, LOG_DEBUG, " -> client %d still has %d soft hold(s)",
@@ -449,6 +450,10 @@ static void iauth_req_cleanup(void *ptr)
 static void iauth_timeout(evutil_socket_t sock, short event, void *datum)
 {
     struct iauth_request *req = datum;
+    /* Soft holds taken or released after this point must not delay
+     * (or, by going negative, prevent) the decision any more.
+     */
+    BITSET_SET(req->flags, IAUTH_TIMED_OUT);
     req->soft_holds = 0;
     iauth_check_request(req);
     (void)sock; (void)event;
